@@ -675,6 +675,11 @@ func getIDTyp(attrs []xml.Attr) (int, int, string, string) {
 	idIdx := -1
 	typIdx := -1
 	for idx, attr := range attrs {
+		// The id and type of a stanza are not namespaced: ignore attributes that
+		// merely share their local name (eg. x:id or x:type).
+		if attr.Name.Space != "" {
+			continue
+		}
 		switch attr.Name.Local {
 		case "id":
 			id = attr.Value
